@@ -438,10 +438,11 @@ def frequency_to_midi_pitch(
     """
     midi_pitch = np.round(12 * np.log2(32 * freq / a4) + 9)
 
-    if isinstance(midi_pitch, (int, float)):
-        return int(midi_pitch)
-    elif isinstance(midi_pitch, np.ndarray):
+    if isinstance(midi_pitch, np.ndarray):
         return midi_pitch.astype(int)
+    else:
+        # also numpy scalars that are not Python floats (e.g. np.float32)
+        return int(midi_pitch)
 
 
 @deprecated_alias(t="time_in_seconds")
